@@ -143,6 +143,8 @@ class Run:
                 ev.append(dict({'ev': 'Probe', 'n': p['n'], 'at': i}, **({'ro': p['ro']} if 'ro' in p else {})))
             for p in probes.get(('pack', i), ()):
                 ev.append({'ev': 'ProbePack', 'n': p['n'], 'at': i, 'after_op': p['after_op'], 'window': p['window']})
+            for p in probes.get(('stop', i), ()):
+                ev.append({'ev': 'ProbeStop', 'want': p['want'], 'with_index': p['with_index'], 'without_index': p['without_index'], 'at': i})
             for p in probes.get(('index', i), ()):
                 ev.append({'ev': 'ProbeIndex', 'n': p['n'], 'at': i, 'snap': p['snap'], 'stale': p['stale'], 'variant': p['variant']})
             for p in probes.get(('ro', i), ()):
@@ -167,12 +169,12 @@ class Run:
             if e['op'] != 'mark':
                 yield ('after', i, None)
 
-    def recovered(self, imgdir, read_only=False, writes=False):
+    def recovered(self, imgdir, read_only=False, writes=False, stop=None, want=None):
         """Open the image with the real FileStorage; return (n, detail): n = number k such that the recovered
         storage answers every query exactly like the model history after k commits; -1 if none / error."""
         from ZODB.FileStorage import FileStorage
         try:
-            st = FileStorage(os.path.join(imgdir, DATA), read_only=read_only)
+            st = FileStorage(os.path.join(imgdir, DATA), read_only=read_only, **({'stop': stop} if stop is not None else {}))
         except Exception as ex:
             return [], 'open raised %s: %s' % (type(ex).__name__, str(ex)[:120])
         try:
@@ -180,15 +182,19 @@ class Run:
                 self._refused = self._try_writes(st)
             tids = [self.rp.tids.model(t.tid) for t in st.iterator()]
             ks = [j for j, (h, obs) in enumerate(self.commits) if [t['tid'] for t in h] == tids]
+            if stop is not None:
+                ks = [want]          # time travel: the state as of the wanted version (the iterator lists the whole file)
             if not ks:
                 return [], 'recovered transactions %r are not a version of the committed history' % (tids,)
             k = ks[-1]
-            rp2 = sd.StorageReplayer('file', dict(self.c, Cls=self.rp.cls), imgdir, {'oid_stride': self.rp.stride})
+            rp2 = sd.StorageReplayer('file', dict(self.c, Cls=self.rp.cls), imgdir, {'oid_stride': self.rp.stride, 'only_asked': stop is not None})
             rp2.st = st
 
             def table(k):
                 obs = self.commits[k][1]
-                if read_only:
+                if stop is not None:
+                    obs = {k_: v for k_, v in sd.norm(obs).items() if k_ in ('lb', 'cur', 'ser', 'revs', 'last', 'len', 'ulog')}
+                elif read_only:
                     # iterator(start) / iterator(None, stop) position themselves with heuristics over the END of the file;
                     # on a file that ends in an incomplete transaction they are not judged (DESIGN 13.4) - the whole
                     # iterator, every load and the undo log are
@@ -333,6 +339,24 @@ class Run:
                                                      'variant': 'index' if extra else 'noindex'})
             if not n or before != after or not refused:
                 details.append({'at': i, 'kind': 'ro', 'detail': det or ('modified=%s refused=%s' % (before != after, refused))})
+            # time travel (read-only, stop=tid): the state as of an earlier transaction, with and without an index file
+            if n0 and snaps:
+                k = max(n0)
+                hk = self.commits[k][0]
+                cands = [j for j in range(1, k) if [t['tid'] for t in self.commits[j][0]] == [t['tid'] for t in hk[:len(self.commits[j][0])]]
+                         and len(self.commits[j][0]) < len(hk) and not any(t['status'] == 'p' for t in hk)]
+                if cands:
+                    j = rng.choice(cands)
+                    stop = self.rp.tids.real(hk[len(self.commits[j][0])]['tid'])
+                    seen = {}
+                    for label, extra in (('index', {IDX: snaps[-1][2]}), ('noindex', {})):
+                        image(extra)
+                        nn, det = self.recovered(img, read_only=True, stop=stop, want=j)
+                        nimg += 1
+                        seen[label] = bool(nn)
+                        if not nn:
+                            details.append({'at': i, 'kind': 'stop/' + label, 'detail': det})
+                    probes.setdefault(('stop', i), []).append({'want': j, 'with_index': seen['index'], 'without_index': seen['noindex']})
         shutil.rmtree(img, ignore_errors=True)
         self.nimages = nimg
         self.probe_details = details
